@@ -30,7 +30,7 @@ from .c09_blocks import norm as bnorm, fragile, Facts, length_of, _lin_parts
 from .c09_chunks import expand_calls, search
 from .c09_facts import consistent, unfollowed, soft_terms, diff_pairs, rigid_difference, selector_functions
 from .c09_run import (explore, join_index, live_in, compatible, equal_mod_alloc, diff_text, resolve, mode_atoms, extend_join, first_use, tail_test,
-                      READ, MAYREAD)
+                      READ, MAYREAD, unstar)
 
 SRS = "pyyeti/srs.py"
 FDE = "pyyeti/fdepsd.py"
@@ -732,11 +732,20 @@ def _judge(p, s, rp, rs, up, us, depth=0):
             return "definite", {"parallel": "an array that is read before it is filled is allocated with " + show(tol[0][0]),
                                 "serial": "allocated with " + show(tol[0][1])}
         return "equal", None
-    pairs = []
-    diff_pairs(vp, vs, pairs)
-    # what stands for the evaluator's representation on one side only of a differing pair (the same merged conditional / starred sequence at the
-    # same place on both sides is not a difference)
-    one_sided = [x for a, b in pairs if not rigid_difference(a, b) for x in soft_terms(a) ^ soft_terms(b)]
+    # judged in the spelling in which a sequence unpacked into n targets is written out (X[0], ..., X[n-1]); when that leaves a starred sequence
+    # against written-out arguments (`f(*X[::-1], y)`), in the starred spelling (the sequences themselves are compared)
+    spellings = [(unstar(vp, p.sim, up), unstar(vs, s.sim, us))]
+    if spellings[0] != (vp, vs):
+        spellings.append((vp, vs))
+    judged = []
+    for a_, b_ in spellings:
+        pairs = []
+        diff_pairs(a_, b_, pairs)
+        # what stands for the evaluator's representation on one side only of a differing pair (the same merged conditional / starred sequence at
+        # the same place on both sides is not a difference)
+        one_sided = [x for a, b in pairs if not rigid_difference(a, b) for x in soft_terms(a) ^ soft_terms(b)]
+        judged.append((a_, b_, pairs, one_sided))
+    vp, vs, pairs, one_sided = next((j for j in judged if not j[3]), judged[0])
     conds = []
     for x in one_sided:
         if is_tag(x, "phi") and x[1] not in conds:
